@@ -6,7 +6,7 @@ from lib import Result, RMODES, OMODES, e_fmt, e_list, e_dy, model_call, run_sha
 
 RULE = ('(S) scalar Python integers up to 2^1000 into formats of 1..52 bits with 0<=n_frac<=n_word+3 (and, 15% of the cases, -8<=n_frac<0 with magnitudes around 2^53..2^64 and around the format bound) by constructor, call, set_val and indexed assignment, '
         'compared with Spec.quantize evaluated on the exact integer; magnitudes stratified around 2^31, 2^53, 2^62, 2^63, 2^64 (scaled and unscaled) and huge; '
-        '(A) add/sub/mul with optimal sizing for operand words 2..70, results up to 256 bits, codes at extremes, near extremes and random, compared with exact integers; 12% of the cases are integer formats holding integer values computed by the value method. '
+        '(A) add/sub/mul with optimal sizing for operand words 2..70, results up to 256 bits, codes at extremes, near extremes and random, compared with exact integers; 12% of the cases (half of them with operand words adding up to 62..66 bits) are integer formats holding integer values computed by the value method. '
         'Non-trivial = the scaled input or an intermediate needs more than 53 bits; distinct by full input.')
 ASSUMPTIONS = []
 
